@@ -20,7 +20,7 @@ TEXT = {101: 'Goodbye', 102: 'Command completed successfully', 103: 'Query compl
 def hx(b): return b.hex() if b else '-'
 
 
-def gen_reply(R, node=b't1', hostile=0.15):
+def gen_reply(R, node=b't1', hostile=0.15, huge=True):
     """one server reply (up to and including the prompt), mostly conforming"""
     out = b''
     for _ in range(R.choice([0, 0, 1, 1, 2, 3, 6])):
@@ -43,7 +43,7 @@ def gen_reply(R, node=b't1', hostile=0.15):
         elif k < 0.44: term = term[:R.randrange(len(term))]                 # cut inside the line
         elif k < 0.52: term = term.replace(b' ', b'\x00', 1)                # NUL inside
         elif k < 0.60: term = bytes(R.randrange(256) for _ in range(R.randint(1, 30))) + b'\r\n' + term
-        elif k < 0.66: term = b'307 ' + b'n' * R.choice([200, 5000, 140000]) + b'\r\n' + term
+        elif k < 0.66: term = b'307 ' + b'n' * R.choice([200, 5000, 140000] if huge else [200, 2000]) + b'\r\n' + term
         elif k < 0.72: term = b'abc\r\n' + term                             # a line shorter than five bytes
         elif k < 0.80: term = term[:3] + term[4:]                           # no blank after the code
         elif k < 0.88: out = PROMPT + out                                   # a prompt in the middle
@@ -55,12 +55,13 @@ def segment(R, stream, tail=None):
     """cut a byte stream into read chunks; tail = what follows (EOF / ERR / nothing = script exhausted)"""
     chunks = []
     mode = R.random()
+    if len(stream) > 20000: mode = R.choice([0.1, 0.9])      # very long streams: whole, or cut around the 128 KiB buffer step (the model's list operations are quadratic in the number of reads)
     i = 0
     while i < len(stream):
         if mode < 0.3: n = len(stream)
         elif mode < 0.5: n = R.randint(1, 3)
         elif mode < 0.8: n = R.randint(1, 40)
-        else: n = R.choice([1, 9, 10, 11, 131072, 131071])
+        else: n = R.choice([1, 9, 10, 11, 131072, 131071]) if len(stream) <= 20000 else R.choice([131072, 131071, 65536, 9000])
         chunks.append(hx(stream[i:i + n])); i += n
     if tail: chunks.append(tail)
     return chunks
@@ -85,7 +86,7 @@ def gen_ops(seed, n):
             ver = R.choice([b'VERSION', b'VERSION', b'VERSION', b'9.9', b'', b'a b'])
             stream = b'001 ' + ver + b'\r\n' + PROMPT
             for k in range(nex):
-                stream += gen_reply(R, hostile=0.1 if k == nex - 1 else 0.03)
+                stream += gen_reply(R, hostile=0.1 if k == nex - 1 else 0.03, huge=False)
             stream += b'101 Goodbye\r\n'
             rr = R.random()
             if rr < 0.10: stream = stream[:R.randrange(len(stream) + 1)]
@@ -212,7 +213,7 @@ def check(op, c, V, st, i):
 class LibPmLayer:
     name = 'libpm'
 
-    def __init__(self, quick=(16, 400), thorough=(64, 2000)):
+    def __init__(self, quick=(16, 250), thorough=(64, 1500)):
         self.quick = quick; self.thorough = thorough
 
     def build(self): build()
